@@ -250,6 +250,31 @@ def fetch_outcome(c, i):
     return ('error' if saw_err else 'missing'), None, saw_err
 
 
+# ---- known finding KF-compile-twomod: tolerated effect, not a carved-out region ------------------------------------------
+# A file that holds module i and module i+1 whose second module fails in the symbol-table builder: the failure is keyed by
+# the requested name, so module i (built, generated, written) is reported `failed` and offered to borrowers. While that
+# finding is open, exactly THESE effects are tolerated for exactly THAT module; every other clause of every oracle is still
+# checked inside the region (an earlier version excluded the whole region from the conditions: a seeded change hid there).
+
+def _kf_open(kid):
+    import json
+    import os
+    try:
+        with open(os.path.join(os.path.dirname(os.path.dirname(os.path.abspath(__file__))), 'known_findings.json')) as f:
+            return any(e.get('id') == kid and e.get('status') == 'open' for e in json.load(f).get('findings', []))
+    except (OSError, ValueError):
+        return False
+
+
+TOLERATE_TWOMOD = _kf_open('KF-compile-twomod')
+STRICT = [False]            # witnesses of the known finding run the oracles without the tolerance
+
+
+def twomod(c, i):
+    """module i is the first module of a file whose second module fails in the symbol-table builder"""
+    return TOLERATE_TWOMOD and not STRICT[0] and c.par[i] == 3 and c.sym[(i + 1) % c.M]
+
+
 # ---- oracles -----------------------------------------------------------------
 
 def status_of(res, i):
@@ -290,12 +315,15 @@ def oracle_C07(c, res, log, exc):
         if c.opts['writeMibs']:
             wrote = len(p) == 1 and p[0][4] == 'ok'
             if (st in ('compiled', 'borrowed')) != wrote:
-                return False
+                if not (twomod(c, i) and wrote and st == 'failed'):
+                    return False
             if p:
                 # exact text and dryRun flag pass-through
                 if p[0][3] != c.opts['dryRun']:
                     return False
                 d = p[0][2]
+                if not (d[0] in ('GEN', 'BOR') and d[2] == i):
+                    return False
                 if st == 'compiled' and not (d[0] == 'GEN' and d[2] == i):
                     return False
                 if st == 'borrowed' and not (d[0] == 'BOR' and d[2] == i):
@@ -377,6 +405,15 @@ def prefail_set(c, res, log):
         st = status_of(res, i)
         if st in ('failed', 'missing') and not puts_of(log, i):
             out.append(i)
+    # ground truth, independent of what compile() chose to report: a module of the closure (requested, or imported by a
+    # module whose symbol table was built) that has no status at all was lost on the way - it certainly was not compiled
+    closure = set(c.req)
+    for e in log:
+        if e[0] == 'sym' and not c.sym[e[2]]:
+            closure.update(j for j in range(c.M) if c.imp[e[2]][j])
+    for i in sorted(closure):
+        if status_of(res, i) is None and i not in out:
+            out.append(i)
     return out
 
 
@@ -402,7 +439,8 @@ def oracle_C09(c, res, log, exc):
             if len(p) != 1:
                 return False
             if p[0][4] == 'ok' and status_of(res, i) != 'compiled':
-                return False
+                if not (twomod(c, i) and status_of(res, i) in ('failed', 'borrowed')):
+                    return False
     return True
 
 
@@ -473,7 +511,7 @@ def oracle_C19(c, res, log, exc):
         st = status_of(res, i)
         if gen_ok:
             # a module that compiled successfully is never replaced by a borrowed copy
-            if bs or st == 'borrowed':
+            if (bs or st == 'borrowed') and not twomod(c, i):
                 return False
             continue
         if bs:
@@ -691,4 +729,8 @@ def check_defaults(oracle: str, over: str) -> bool:
     import json
     kw = dict(DEFAULTS)
     kw.update(json.loads(over))
-    return _check(oracle, kw)
+    STRICT[0] = True                    # witnesses demonstrate the finding itself
+    try:
+        return _check(oracle, kw)
+    finally:
+        STRICT[0] = False
